@@ -187,6 +187,22 @@ where
         self.filter1.can_subscribe(topic_hash) && self.filter2.can_subscribe(topic_hash)
     }
 
+    /// Both filters judge the complete request (so that per-request and per-peer limits of a
+    /// wrapped [`MaxCountSubscriptionFilter`] are enforced); only what both let through is kept.
+    fn filter_incoming_subscriptions<'a>(
+        &mut self,
+        subscriptions: &'a [Subscription],
+        currently_subscribed_topics: &BTreeSet<TopicHash>,
+    ) -> Result<HashSet<&'a Subscription>, String> {
+        let first = self
+            .filter1
+            .filter_incoming_subscriptions(subscriptions, currently_subscribed_topics)?;
+        let second = self
+            .filter2
+            .filter_incoming_subscriptions(subscriptions, currently_subscribed_topics)?;
+        Ok(first.intersection(&second).copied().collect())
+    }
+
     fn filter_incoming_subscription_set<'a>(
         &mut self,
         subscriptions: HashSet<&'a Subscription>,
